@@ -1,2 +1,2 @@
-import IstioModel.C16.Driver
-def main (_ : List String) : IO Unit := IstioModel.Wire.run ({} : IstioModel.C16.DState) IstioModel.C16.stepD
+import IstioModel.C16.JoinDriver
+def main (_ : List String) : IO Unit := IstioModel.Wire.run ({} : IstioModel.C16.AllState) IstioModel.C16.stepAll
